@@ -153,7 +153,15 @@ def eval_case(case):
     dump.parse_ilog_data, dump.parse_trace_data = wi, wt
     try:
         core.arm(30)
-        got = dump.parse_dump_data(memoryview(data), hdr, strf)
+        view = memoryview(data)
+        if case.get('window'):
+            # the dump is a window into a larger buffer (e.g. a section payload): what lies around it - further headers
+            # included - is not part of the dump
+            pre = bytes.fromhex('0220014246414e53') + b'\x11' * 9        # a complete trace header start + name, then filler
+            post = bytes.fromhex('02200142504f5752') + b'\x22' * 5
+            holder = (bytearray if case['window'] == 'bytearray' else bytes)(pre + data + post)
+            view = memoryview(holder)[len(pre):len(pre) + len(data)]
+        got = dump.parse_dump_data(view, hdr, strf)
         core.disarm()
     except Exception as e:
         core.disarm()
@@ -254,6 +262,8 @@ def run_chunk(chunk):
             case = {'ilog': il, 'names': list(names), 'shapes': list(shapes)}
             _do(res, case)
             count += 1
+            if count % 5 == 0:
+                _do(res, dict(case, window='bytes' if count % 10 else 'bytearray'))
             if count % 7 == 0:
                 for fmt in (0, 1):
                     for pad in (True, False):
